@@ -406,15 +406,23 @@ static std::string op_bulk(const toks_t& t)
     else if (t[2] == "long") out = counted_ops<long>(t);
     else if (t[2] == "llong") out = counted_ops<long long>(t);
   } else if (op.rfind("deny", 0) == 0) {
-    // deny <src> <num>
+    // deny <src> <elk> <num>   (element kinds allowed by can_type_be_memcopied)
     uintptr_t src = parse_u64(t[1]);
-    size_t num = parse_u64(t[2]);
-    auto ps = mkptr<char>(src);
-    bool copied = false;
-    char* r = rlbox::copy_memory_or_deny_access(sb(src ? src : slot_base(0)), ps, num, false, copied);
-    std::string o = std::string("OK ") + (r ? "copy" : "null") + (copied ? " copied" : "");
-    free(r);
-    out = o;
+    size_t num = parse_u64(t[3]);
+    auto go = [&](auto tg) {
+      using E = typename decltype(tg)::type;
+      auto ps = mkptr<E>(src);
+      bool copied = false;
+      E* r = rlbox::copy_memory_or_deny_access(sb(src ? src : slot_base(0)), ps, num, false, copied);
+      std::string o = std::string("OK ") + (r ? "copy" : "null") + (copied ? " copied" : "");
+      free(r);
+      return o;
+    };
+    if (t[2] == "char") out = go(tag<char>{});
+    else if (t[2] == "short") out = go(tag<short>{});
+    else if (t[2] == "float") out = go(tag<float>{});
+    else if (t[2] == "double") out = go(tag<double>{});
+    else out = "HARNESS-ERROR element kind";
   } else if (op.rfind("grant", 0) == 0) {
     // grant <src> <num> <malloc-ret-rep>
     uintptr_t src = parse_u64(t[1]);
